@@ -20,17 +20,21 @@
                          environment's End / loop life-cycle events is enabled;
      retry_measure       no spinning: retries <= ended invocations + proxy results + closed loops +
                          time-outs, and every time-out costs 61440 ticks;
+     bounded_work        the number of library events is bounded by the environment's events;
+     maximal_trace_*     a trace after which the library is stuck, with every invocation ended, has
+                         every started call on a live loop answered (or a timed wait still running);
      ok_C05_sound        every trace the model accepts satisfies the trace monitor that judges the
                          traces of the real code (no hang, prompt answers, rescue within 60 s).
 
    NOT formalised (left on paper):
-     - the inference "a fair scheduler eventually takes a step that stays enabled", which turns
-       "enabled" (owner_can_finish, prompt, rescue_within_60, no_deadlock) into "eventually taken",
+     - the inference "a fair scheduler (and a running clock) produces a maximal trace", i.e.
+       eventually takes a step that stays enabled, which turns "enabled" (owner_can_finish, prompt,
+       rescue_within_60, no_deadlock) into "eventually taken" and makes maximal_trace_* applicable,
        together with the assumption of the property that every invocation of the wrapped function
        finishes or is cancelled (IEnd is an environment event); *)
 From Coq Require Import List Arith NArith Bool.
 Import ListNotations.
-Require Import Aiuti.Cache Aiuti.CacheLemmas Aiuti.CacheInv Aiuti.CacheLive Aiuti.CacheMon Aiuti.CacheMon5 Aiuti.CacheMon5Spec Aiuti.CacheRetry.
+Require Import Aiuti.Cache Aiuti.CacheLemmas Aiuti.CacheInv Aiuti.CacheLive Aiuti.CacheMon Aiuti.CacheMon5 Aiuti.CacheMon5Spec Aiuti.CacheRetry Aiuti.CacheWork.
 
 (* own_ev p = Some e: the caller at pc p created event e in its Decide and has not yet run the
    `finally` block that sets it (pcs PUnlock (DComp e), PInvoke e, PComp _ e, PPublish _ e, PFinLock e _). *)
@@ -185,6 +189,54 @@ Theorem retry_measure :
     /\ (N.of_nat (timeouts c (init n tbl) tr) * SAFETY <= now s)%N.
 Proof. exact CacheRetry.retry_measure. Qed.
 Print Assumptions retry_measure.
+
+(* BOUNDED WORK.  Library events = Get Miss Acq Rel SetC XSub IStart Done and a proxy wait answering
+   True (Proxy _ _ 0); environment events = IEnd, Cancel, LoopEv, Adv, End and a proxy wait being
+   cancelled by its loop's shutdown (Proxy _ _ 1/2).  In EVERY accepted trace the number of library
+   events (n_lib) is bounded by the number of callers and the environment's events:
+     n_lib <= 11 * callers + 8 * (callers * (#IEnd + #loops closed) + #cancelled proxies + time-outs)
+   and every time-out of a caller is paid for by 61440 ticks of the clock.  (11 = a first round
+   including the computing path, 8 = one further round of the while-loop.)  So the library can take
+   only finitely many steps between two environment events: it cannot spin. *)
+Theorem bounded_work :
+  forall n tbl tr s, run (init n tbl) tr = Some s ->
+    n_lib tr <= length tbl * 11
+                + 8 * (length tbl * (n_iend tr + n_close tr) + n_proxy_cancel_all tr + total_timeouts n tbl tr)
+    /\ (forall c, (N.of_nat (timeouts c (init n tbl) tr) * SAFETY <= now s)%N).
+Proof. exact CacheWork.bounded_work. Qed.
+Print Assumptions bounded_work.
+
+(* MAXIMAL TRACES.  Take any accepted finite trace after which the library is stuck (no library
+   event and no proxy result is accepted), in which the environment has ended every invocation it
+   started (no IEnd is accepted) and no shutdown run is half-way.  Then every call on a live loop
+   that was started is answered — or it sits in a timed wait whose deadline lies ahead, and the
+   clock can move towards it (so the trace is not maximal for the clock).  With bounded_work and
+   no_deadlock this is the termination argument; what is left on paper is only "a fair scheduler
+   (and a clock that keeps running) produces such a maximal trace".
+   (The variant with the hypothesis "Adv is not accepted" would be vacuous: once everybody is
+   answered the model always lets the clock run.) *)
+Theorem maximal_trace_done_or_timer :
+  forall n tbl tr s, run (init n tbl) tr = Some s ->
+    (forall e, lib_or_proxy e = true -> step s e = None) ->
+    (forall i r t, step s (IEnd i r t) = None) ->
+    (forall t, lp s t <> LShut) ->
+    forall c cr, getc s c = Some cr -> alive (lp s (cloop cr)) = true ->
+      done_or_unstarted (cpc cr) = true
+      \/ exists dl t s', waits_until cr dl /\ (now s < t)%N /\ (t <= dl)%N /\ step s (Adv t) = Some s'.
+Proof. exact CacheWork.maximal_trace_done_or_timer. Qed.
+Print Assumptions maximal_trace_done_or_timer.
+
+(* ... and if moreover no caller on a running loop is inside a timed wait, every started call on a
+   live loop is answered. *)
+Theorem maximal_trace_all_done :
+  forall n tbl tr s, run (init n tbl) tr = Some s ->
+    (forall e, lib_or_proxy e = true -> step s e = None) ->
+    (forall i r t, step s (IEnd i r t) = None) ->
+    (forall t, lp s t <> LShut) ->
+    (forall c cr, getc s c = Some cr -> lp s (cloop cr) = LRun -> dl_of (cpc cr) = None) ->
+    forall c cr, getc s c = Some cr -> alive (lp s (cloop cr)) = true -> done_or_unstarted (cpc cr) = true.
+Proof. exact CacheWork.maximal_trace_all_done. Qed.
+Print Assumptions maximal_trace_all_done.
 
 (* MONITOR SOUNDNESS.  The trace monitor ok_C05 that the check evaluates on every trace observed
    from the real code — the run ends with End 0 (no deadlock, no step bound = spinning, no hang);
